@@ -46,13 +46,17 @@ CHECKS["C09"] = dict(
 
 CHECKS["C10"] = dict(
     text=("Theorems about the Gallina model of orient_ (half-edge table, unique-with-counts test, lexsort pairing, signed neighbour "
-          "matrix, fuelled flood incl. re-seeding per component, flips, volume test): for every input the result keeps triangle order and "
-          "vertex sets; the return value is the number of triangles whose winding changed; a global flip negates the enclosed volume and "
-          "the returned closed oriented mesh has volume >= 0; an edge in >= 3 triangles gives ValueError; an oriented mesh (open, or "
-          "closed with volume >= 0) is a fixed point (unchanged, 0 returned). Termination, 'is_oriented "
-          "afterwards' and idempotence are decided by correspondence (model = implementation on every generated flip pattern, both "
-          "calls) plus brute-force oracles; no theorem for them yet (partial)."),
-    design="6/C10", technique="Coq proof (structural + counting lemmas, ring) + vm_compute correspondence over flip patterns")
+          "matrix, fuelled flood incl. re-seeding per component, flips, volume test). Central theorem: for EVERY edge-manifold, "
+          "orientable mesh in which each triangle shares an edge with another one (any number of components, any flip pattern, any "
+          "numbering, two-triangle pillows included; hypotheses stated with brute-force counts) orient_ terminates within its fuel, "
+          "raises nothing and returns consistently oriented triangles; a second call returns 0 and changes nothing. Proved through "
+          "(i) a characterisation of the entries produced by the lexsort/reshape pairing, (ii) an invariant of the sign flood for every "
+          "symmetric sign-consistent neighbour table. Also for every input: triangle order and vertex sets are kept; the return value "
+          "is the number of triangles whose winding changed; a global flip negates the enclosed volume and the returned closed mesh "
+          "has volume >= 0; an edge in >= 3 triangles gives ValueError; an oriented mesh is a fixed point. Proving the central theorem "
+          "exposed finding F24 (pillow components, repaired by fix c4eb84f). The model is tied to the code by correspondence on every "
+          "generated flip pattern (both calls) plus brute-force oracles."),
+    design="6/C10", technique="Coq proof (pairing characterisation, flood invariant, counting lemmas) + vm_compute correspondence over flip patterns")
 
 CHECKS["C11"] = dict(
     text=("Theorems about the Gallina model of refine_ for every mesh (any topology): old vertices are an unchanged prefix; the edge "
